@@ -15,6 +15,7 @@ import KvarnModel.Drv.C17
 import KvarnModel.Drv.C08
 import KvarnModel.Drv.C20
 import KvarnModel.Drv.C10
+import KvarnModel.Drv.C11
 /-!
 Line-protocol driver: `<group>.<fn> <arg> …` per line on stdin, one canonical line on stdout.
 Unknown or ill-formed lines answer `bad-op` — never a default.
@@ -43,6 +44,7 @@ def dispatchLine (line : String) : String :=
       | ["c08", f] => Drv.C08.handle (f :: args)
       | ["c20", f] => Drv.C20.handle (f :: args)
       | ["c10", f] => Drv.C10.handle (f :: args)
+      | ["c11", f] => Drv.C11.handle (f :: args)
       | _ => none
     r.getD "bad-op"
 
